@@ -813,6 +813,33 @@ def check_noise(case, ctx):
         out2 = setting.generate()
         ctx.equal(F._stacked(out2), x, "depolarized_repeatable")
         ctx.raises((ValueError,), lambda: Dep(c_sys, arg, case["bad_p"]), "depolarized_rejects_out_of_range", f"p={case['bad_p']}")
+        if b["kind"] == "named":
+            # the other entry points of the same noise model: the catalogue-level generator and the tester-set generators
+            from quara.objects.qoperation_typical import generate_qoperation_depolarized
+            from quara.objects import tester_typical as tt
+
+            q = generate_qoperation_depolarized(mode=t, name=b["name"], c_sys=c_sys, error_rate=p)
+            ctx.check(type(q).__name__.lower() == t, "depolarized_type:catalogue", type(q).__name__)
+            xq = F._stacked(q)
+            ctx.close(xq, exp, rm.algebraic_tol(d), f"depolarized_model:catalogue:{t}")
+            _check_physical(ctx, q, t, xq, basis, d, m, "depolarized_catalogue")
+            if b["shape"] == "1q" and t in ("state", "povm"):
+                others = [n for n in NAMES_1Q[t] if n != b["name"]][:2]
+                names = [others[0], b["name"]] + others[1:]
+                gen_fn = tt.generate_tester_states_depolarized if t == "state" else tt.generate_tester_povms_depolarized
+                rates = [min(1.0, p / 2 + 0.25), float(p), 0.0][: len(names)]
+                for tag, arg_rates, want_p in (("common", float(p), [float(p)] * len(names)), ("list", rates, rates)):
+                    outs = gen_fn(c_sys, list(names), arg_rates)
+                    if not ctx.check(isinstance(outs, list) and len(outs) == len(names), f"depolarized_testers_len:{tag}", repr(type(outs))):
+                        continue
+                    from quara.objects.qoperation_typical import generate_qoperation
+
+                    for nm, o, pj in zip(names, outs, want_p):
+                        base_x = F._stacked(generate_qoperation(mode=t, name=nm, c_sys=c_sys))
+                        xo = F._stacked(o)
+                        ctx.close(xo, depol_model(t, basis, base_x, d, m if t == "povm" else None, pj), rm.algebraic_tol(d),
+                                  f"depolarized_model:testers_{tag}:{t}", f"name {nm} p={pj}")
+                        _check_physical(ctx, o, t, xo, basis, d, base_x.size // (d * d) if t == "povm" else None, "depolarized_testers")
         ctx.label("p:" + ("0" if p == 0 else "1" if p == 1 else "tiny" if p < 1e-3 else "near1" if p > 1 - 1e-3 else "inner"))
         moved = float(np.max(np.abs(exp - ideal))) > 1e-6 or p == 0.0
         ctx.nontrivial(moved)
